@@ -250,6 +250,20 @@ impl Check for C04 {
         } else if sc.dir != 0 && r.below(8) == 0 {
             // an ssh child dies from a signal in the middle of what it is doing
             sc.kill_child = Some(r.range(2, 14) as u32);
+        } else if r.below(300) == 0 {
+            // mass failure: 255, 256 or 257 files that cannot be delivered (a directory sits at
+            // each destination path) next to a few ordinary ones, local to local — counts that
+            // reach the width of an exit status
+            sc.dir = 0;
+            sc.dst_exists = true;
+            sc.hardlink_pair = false;
+            sc.excludes.clear();
+            sc.files.retain(|f| !f.path.starts_with("mass/") && f.path != "mass" && f.size <= 1000);
+            sc.extra_dst.retain(|(p, _)| !p.starts_with("mass/") && p != "mass");
+            let n = *r.pick(&[255u32, 256, 256, 257]);
+            for i in 0..n {
+                sc.files.push(FileSpec { path: format!("mass/f{i:03}"), size: 3, tag: i, mtime_s: 1_650_000_000, mtime_ns: 0, dst: DstState::DirInTheWay });
+            }
         }
         sc
     }
